@@ -288,6 +288,28 @@ func (m *kbMachine) add(pub crypto.PublicKey, priv crypto.PrivateKey, pass strin
 	m.model[a] = &kbEntry{pub: pub, priv: priv, pass: pass}
 }
 
+// keyForImport draws the key of an import: one time in three (when possible) a key that is already stored
+// (imports must not overwrite), otherwise a fresh generated key.
+func (m *kbMachine) keyForImport(edOnly bool) gen.Key {
+	var known []string
+	for _, a := range m.addrs() {
+		if e := m.model[a]; e.priv != nil && (!edOnly || len(e.priv.RawBytes()) == 64) {
+			known = append(known, a)
+		}
+	}
+	if len(known) > 0 && rapid.IntRange(0, 2).Draw(m.rt, "reimport") == 0 {
+		e := m.model[known[rapid.IntRange(0, len(known)-1).Draw(m.rt, "reimportSlot")]]
+		if len(e.priv.RawBytes()) == 64 {
+			return gen.Ed25519FromSeed(e.priv.RawBytes()[:32])
+		}
+		return gen.Key{Priv: e.priv, Pub: e.pub, Addr: sdk.Address(e.pub.Address()), Algo: "secp256k1", Seed: e.priv.RawBytes()}
+	}
+	if edOnly {
+		return gen.Ed25519Key().Draw(m.rt, "key")
+	}
+	return gen.AnyKey().Draw(m.rt, "key")
+}
+
 func (m *kbMachine) step() {
 	rt, c := m.rt, m.c
 	m.n++
@@ -311,7 +333,7 @@ func (m *kbMachine) step() {
 		}
 		m.add(kp.PublicKey, nil, pass)
 	case "importRaw":
-		k := gen.Ed25519Key().Draw(rt, "key")
+		k := m.keyForImport(true)
 		pass := drawPassphrase(rt, "pass")
 		passClass(c, pass)
 		a := strings.ToLower(k.Addr.String())
@@ -333,7 +355,7 @@ func (m *kbMachine) step() {
 		}
 		m.add(k.Pub, k.Priv, pass)
 	case "importArmor":
-		k := gen.AnyKey().Draw(rt, "key")
+		k := m.keyForImport(false)
 		armorPass, encPass := drawPassphrase(rt, "armorPass"), drawPassphrase(rt, "encPass")
 		armor, err := mintkey.EncryptArmorPrivKey(k.Priv, armorPass, "")
 		c.AddExtra("armor_ops", 1)
